@@ -93,6 +93,12 @@ type runCtx struct {
 	cache   map[string]map[string]any
 	nload   int
 	pts     int
+	// continuation after a crash
+	hist          map[string][]map[string]any // "<update>/<call index|end>" -> observations of histories reaching it
+	histSeen      map[string]bool
+	histN         int
+	histPts       int
+	histAbandoned int
 }
 
 func (rc *runCtx) lexBoard(text string) []int {
@@ -175,6 +181,80 @@ func (rc *runCtx) observe(v *VFS) (map[string]any, error) {
 	return obs, nil
 }
 
+// continueFrom explores the histories "the process is killed at this crash point, the server restarts, and the next
+// update of the same store is performed": the recorded system calls that follow the killed update are re-executed on
+// the crashed directory (other stores' updates in between are replayed without being observed), and the directory is
+// loaded with the real constructors before every call of that next update and after it.  If a recorded call cannot
+// have the recorded outcome on the crashed directory (O_EXCL on an existing name, rename of an absent name, ...) the
+// real code would have taken another path: the history is abandoned.
+func (rc *runCtx) continueFrom(crashed *VFS, evs []Sys, at int, j int, origin map[string]any, recObs map[string]any) error {
+	store := rc.sc.Updates[j].Store
+	for _, st := range []string{"board", "news", "accts", "bans"} {
+		if ok, _ := recObs[st].(map[string]any)["ok"].(bool); !ok {
+			return nil
+		}
+	}
+	crashed.fds = map[int]*fdesc{}
+	dk := fmt.Sprintf("%d/%s", j, crashed.Key())
+	if rc.histSeen[dk] {
+		return nil
+	}
+	rc.histSeen[dk] = true
+	// skip what the dead process never executed
+	i := at
+	for ; i < len(evs); i++ {
+		if evs[i].Mark != "" && strings.HasPrefix(evs[i].Mark, "E ") {
+			break
+		}
+	}
+	cur, target, n := -1, -1, 0
+	rec := func(key string) error {
+		o, err := rc.observe(crashed)
+		if err != nil {
+			return err
+		}
+		h := map[string]any{"crash": o, "rec": recObs[store].(map[string]any)["val"]}
+		for k, v := range origin {
+			h[k] = v
+		}
+		rc.hist[key] = append(rc.hist[key], h)
+		rc.histPts++
+		return nil
+	}
+	for i++; i < len(evs); i++ {
+		e := evs[i]
+		if e.Mark != "" {
+			f := strings.SplitN(e.Mark, " ", 3)
+			switch f[0] {
+			case "B":
+				fmt.Sscan(f[1], &cur)
+				n = 0
+				if target == -1 && cur >= 0 && cur < len(rc.sc.Updates) && rc.sc.Updates[cur].Store == store {
+					target = cur
+					rc.histN++
+				}
+			case "E":
+				if cur == target && target != -1 {
+					return rec(fmt.Sprintf("%d/end", target))
+				}
+				cur = -1
+			}
+			continue
+		}
+		if cur == target && target != -1 {
+			if err := rec(fmt.Sprintf("%d/%d", target, n)); err != nil {
+				return err
+			}
+		}
+		if err := crashed.Apply(e, -1); err != nil {
+			rc.histAbandoned++
+			return nil
+		}
+		n++
+	}
+	return nil
+}
+
 func (rc *runCtx) updRec(u Update) (map[string]any, error) {
 	m := map[string]any{"kind": u.Kind, "store": u.Store}
 	switch u.Kind {
@@ -227,12 +307,13 @@ type KillPoint struct {
 }
 
 type runResult struct {
-	leftover int // crash points at which a temp file exists next to the final files
-	events   []map[string]any
-	kills    []KillPoint
-	points   int
-	loads    int
-	calls    map[string]int
+	histN, histPts, histAbandoned int
+	leftover                      int // crash points at which a temp file exists next to the final files
+	events                        []map[string]any
+	kills                         []KillPoint
+	points                        int
+	loads                         int
+	calls                         map[string]int
 }
 
 var denseCuts bool
@@ -255,6 +336,8 @@ func cutsOf(n int) []int {
 	return out
 }
 
+var cont = true
+
 func materialiseRun(sc Script, recDir, scratch string) (*runResult, error) {
 	rdir := filepath.Join(recDir, fmt.Sprintf("run%d", sc.Run))
 	cfg := filepath.Join(rdir, "config")
@@ -266,7 +349,8 @@ func materialiseRun(sc Script, recDir, scratch string) (*runResult, error) {
 	if err != nil {
 		return nil, err
 	}
-	rc := &runCtx{sc: sc, in: &interner{m: map[string]int{}}, scratch: scratch, cache: map[string]map[string]any{}}
+	rc := &runCtx{sc: sc, in: &interner{m: map[string]int{}}, scratch: scratch, cache: map[string]map[string]any{},
+		hist: map[string][]map[string]any{}, histSeen: map[string]bool{}}
 	// probes: every address of the script and each of its proper prefixes
 	ps := map[string]bool{}
 	addIP := func(ip string) {
@@ -303,7 +387,13 @@ func materialiseRun(sc Script, recDir, scratch string) (*runResult, error) {
 	started := false
 	idx := 0
 	var beginEv map[string]any
-	for _, e := range evs {
+	histOf := func(key string) []map[string]any {
+		if h := rc.hist[key]; h != nil {
+			return h
+		}
+		return []map[string]any{}
+	}
+	for ei, e := range evs {
 		if e.Mark != "" {
 			f := strings.SplitN(e.Mark, " ", 3)
 			switch f[0] {
@@ -382,7 +472,8 @@ func materialiseRun(sc Script, recDir, scratch string) (*runResult, error) {
 				if !ok && len(f) > 2 {
 					errText = strings.TrimPrefix(f[2], "err ")
 				}
-				emit(map[string]any{"op": "end", "run": sc.Run, "u": cur, "ok": ok, "err": errText, "crash": obs})
+				emit(map[string]any{"op": "end", "run": sc.Run, "u": cur, "ok": ok, "err": errText, "crash": obs,
+					"hist": histOf(fmt.Sprintf("%d/end", cur))})
 				cur = -1
 			default:
 				return nil, fmt.Errorf("run %d: unknown marker %q", sc.Run, e.Mark)
@@ -431,7 +522,12 @@ func materialiseRun(sc Script, recDir, scratch string) (*runResult, error) {
 		}
 		sev := map[string]any{"op": "sys", "run": sc.Run, "u": cur, "i": idx, "call": e.Call, "mode": mode,
 			"app": hasFlag(e.Flags, "O_APPEND"), "creat": hasFlag(e.Flags, "O_CREAT"), "file": fr, "to": to, "fd": e.FD, "cid": 0, "n": 0, "ok": e.OK(), "errno": e.Errno, "len": e.Len,
-			"crash": obs, "cuts": []any{}, "line": e.Line}
+			"crash": obs, "cuts": []any{}, "line": e.Line, "hist": histOf(fmt.Sprintf("%d/%d", cur, idx))}
+		if cont {
+			if err := rc.continueFrom(v.Clone(), evs, ei, cur, map[string]any{"j": cur, "ci": idx, "cut": -1}, obs); err != nil {
+				return nil, err
+			}
+		}
 		if e.Call == "write" && e.OK() {
 			n := int(e.Ret)
 			s := sha256.Sum256(e.Data[:n])
@@ -448,6 +544,11 @@ func materialiseRun(sc Script, recDir, scratch string) (*runResult, error) {
 				}
 				res.points++
 				cuts = append(cuts, map[string]any{"k": k, "crash": o})
+				if cont && k > 0 {
+					if err := rc.continueFrom(c, evs, ei, cur, map[string]any{"j": cur, "ci": idx, "cut": k}, o); err != nil {
+						return nil, err
+					}
+				}
 			}
 			if cuts != nil {
 				sev["cuts"] = cuts
@@ -474,6 +575,7 @@ func materialiseRun(sc Script, recDir, scratch string) (*runResult, error) {
 		return nil, fmt.Errorf("run %d: re-executing the syscall log does not reproduce the final directory:\nreal: %v\nre-executed: %v", sc.Run, real, v.Listing())
 	}
 	res.loads = rc.nload
+	res.histN, res.histPts, res.histAbandoned = rc.histN, rc.histPts, rc.histAbandoned
 	return res, nil
 }
 
@@ -487,6 +589,7 @@ func runMaterialise(args []string) error {
 	nkills := fs.Int("nkills", 8, "number of boundaries to reproduce with a real kill")
 	par := fs.Int("par", 8, "parallel runs")
 	fs.BoolVar(&denseCuts, "dense", false, "more prefix lengths per write")
+	fs.BoolVar(&cont, "cont", true, "continue after every crash point with the next update of the same store")
 	if err := fs.Parse(args); err != nil {
 		return err
 	}
@@ -524,6 +627,7 @@ func runMaterialise(args []string) error {
 	}
 	w := bufio.NewWriterSize(f, 1<<20)
 	points, loads, nev, leftover := 0, 0, 0, 0
+	hN, hP, hA := 0, 0, 0
 	calls := map[string]int{}
 	var cands []KillPoint
 	for _, r := range results {
@@ -539,6 +643,9 @@ func runMaterialise(args []string) error {
 		points += r.points
 		loads += r.loads
 		leftover += r.leftover
+		hN += r.histN
+		hP += r.histPts
+		hA += r.histAbandoned
 		for k, n := range r.calls {
 			calls[k] += n
 		}
@@ -597,7 +704,8 @@ func runMaterialise(args []string) error {
 		kf.Close()
 	}
 	sum, _ := json.Marshal(map[string]any{"runs": len(all), "events": nev, "crash_points": points, "constructor_loads": loads,
-		"calls": calls, "kill_candidates": len(cands), "boundaries_with_leftover_temp_file": leftover})
+		"calls": calls, "kill_candidates": len(cands), "boundaries_with_leftover_temp_file": leftover,
+		"continued_histories": hN, "continued_history_observations": hP, "continued_histories_abandoned": hA})
 	fmt.Println("SUMMARY " + string(sum))
 	return nil
 }
